@@ -253,6 +253,24 @@ func (pa *provAnalysis) addrProv(addr ssa.Value, ctx *provCtx) provSet {
 			if st, ok := ref.(*ssa.Store); ok && st.Addr == ssa.Value(a) {
 				out.add(pa.of(st.Val, ctx))
 			}
+			// a call that receives the address of this local (x.Set(v),
+			// fmt.Fprintf(&buf, ...)) may write its other operands into it
+			if call, ok := ref.(ssa.CallInstruction); ok {
+				cc := call.Common()
+				isArg := false
+				for _, arg := range cc.Args {
+					if arg == ssa.Value(a) {
+						isArg = true
+					}
+				}
+				if isArg {
+					for _, arg := range cc.Args {
+						if arg != ssa.Value(a) {
+							out.add(pa.of(arg, ctx))
+						}
+					}
+				}
+			}
 		}
 		return out
 	case *ssa.IndexAddr:
